@@ -691,7 +691,7 @@ fn child_main(args: &[String]) -> ! {
     // EINTR (the retry loops of file_creation.rs:189-200 / :233-244)
     unsafe {
         let mut sa: libc::sigaction = std::mem::zeroed();
-        sa.sa_sigaction = noop_handler as usize;
+        sa.sa_sigaction = noop_handler as *const () as usize;
         sa.sa_flags = 0;
         libc::sigemptyset(&mut sa.sa_mask);
         libc::sigaction(libc::SIGUSR1, &sa, std::ptr::null_mut());
